@@ -21,7 +21,7 @@ from checks import _dict
 
 VARIANTS = os.path.join(vlib.HARNESS, "tsreg_variants")
 # own target directory: no lock contention with the other drivers' builds
-TARGET = os.path.join(vlib.HARNESS, "target-tsreg")
+TARGET = os.path.join(vlib.HARNESS, "target", "tsreg_variants")
 
 
 def build_variant(ctx, label, features):
